@@ -94,6 +94,8 @@ func runC01(p *Prog, r *Result) {
 	checkLparenStartersListed(p, r, "R01h")
 	r.Rule("R01i", "the separator flag that Printer.command sets to keep a `;` away from a construct's closing word is cleared before the command ends: what follows on the same line gets its separator", 3)
 	checkSeparatorFlagCleared(p, r, "R01i")
+	r.Rule("R01j", "whatever root Print is given, every path from the call that writes it to Print's return passes flushHeredocs: a queued body is not left unwritten", 4)
+	checkPrintFlushesHeredocs(p, r, "R01j")
 	pkg := si.pkg
 	info := pkg.TypesInfo
 	g := buildRefGraph(p)
@@ -479,6 +481,9 @@ func inDefaultOfRootSwitch(g *FGraph, b *FBlock) bool {
 }
 
 var c01Controls = []Control{
+	{Name: "here-documents-flushed-for-files-and-statements-only", Rule: "R01j", WantKey: "Print#after command", File: "syntax/printer.go",
+		Mutate: ctlChain(ctlReplaceAnywhere("\tcase *Stmt:\n\t\tp.stmtList([]*Stmt{node}, nil)\n", "\tcase *Stmt:\n\t\tp.stmtList([]*Stmt{node}, nil)\n\t\tp.flushHeredocs()\n"),
+			ctlReplaceAnywhere("\tp.flushHeredocs()\n\tp.flushComments()\n\n\t// flush the writers", "\tp.flushComments()\n\n\t// flush the writers"))},
 	{Name: "separator-flag-left-set-after-esac", Rule: "R01i", WantKey: "command#store", File: "syntax/printer.go",
 		Mutate: ctlReplaceAnywhere("\t\t// The ;; of the last item only stands in for the ; before esac,\n\t\t// not for the one before a statement which follows on the same line.\n\t\tp.wroteSemi = false\n", "")},
 	{Name: "anonymous-function-not-a-paren-starter", Rule: "R01h", WantKey: "startsWithLparen#FuncDecl", File: "syntax/printer.go",
